@@ -112,8 +112,7 @@ def build_fill_world(repo, it: Interp, sP, sQ, ro, typ):
     return pos, o
 
 
-def check_fills(repo, rep):
-    rid = "C03-R1"
+def check_fills(repo, rep, rid="C03-R1"):
     rep.rule(rid, "Position._on_executed_order (backtest): for every sign pattern of (position, order), magnitude relation and "
                   "reduce_only flag the resulting wallet, signed size and average entry equal the reference margin account "
                   "(fee |filled q*p|*f on every fill - a reduce-only order is filled only up to the position it reduces; PnL realised on reduce/close/flip; reduce-only never increases or flips); trade "
@@ -543,7 +542,65 @@ def check_symbols_minute_major(repo, rep):
     S.check_cover(repo, rep, "C03-R7")
 
 
+def check_entry_histories(repo, rep):
+    """the average entry price after a HISTORY of fills (a carried running cost that one of the mutators forgets to maintain is right
+    after every single fill on a fresh position and wrong after reduce-then-increase)"""
+    from props.c09 import _position
+    rid = "C03-R9"
+    rep.rule(rid, "average entry price after histories of the position mutators (increase, reduce, increase; reduce, increase; close, open, "
+                  "increase), long and short: the weighted average of what is still held - (entry * remaining + price * added) / (remaining "
+                  "+ added) - as a rational identity; a reduction leaves the entry price unchanged")
+    one = R.const(1)
+    for typ, sg in (("long", 1), ("short", -1)):
+        for hist in (("inc", "red", "inc"), ("red", "inc"), ("close", "open", "inc"), ("red", "red", "inc")):
+            def mk(dec, typ=typ, sg=sg, hist=hist):
+                it = Interp(repo, stubs=W.base_stubs(), samples=[{"P": F(5), "E": F(100), "lev": F(2), "cp": F(101), "q1": F(1), "p1": F(90), "q2": F(2), "p2": F(80),
+                                                                  "q3": F(3), "p3": F(70)}],
+                            nonneg={"P", "E", "lev", "cp", "q1", "p1", "q2", "p2", "q3", "p3"}, decisions=dec)
+                pos = _position(repo, typ)
+
+                def go(it):
+                    size, entry = A("P"), A("E")
+                    k = 0
+                    for op in hist:
+                        k += 1
+                        q, pr = A(f"q{k}"), A(f"p{k}")
+                        if op == "inc":
+                            it.call(it.getattr(pos, "_mutating_increase"), [R.const(sg) * q, pr], {})
+                            entry = (entry * size + pr * q) / (size + q)
+                            size = size + q
+                        elif op == "red":
+                            it.call(it.getattr(pos, "_mutating_reduce"), [R.const(-sg) * q, pr], {})
+                            size = size - q
+                        elif op == "close":
+                            it.call(it.getattr(pos, "_mutating_close"), [pr], {})
+                            size, entry = num(0), None
+                        elif op == "open":
+                            it.call(it.getattr(pos, "_mutating_open"), [R.const(sg) * q, pr], {})
+                            size, entry = q, pr
+                    return pos.attrs.get("entry_price"), entry, pos.attrs.get("qty"), R.const(sg) * size
+                return it, go
+            try:
+                outs = explore(mk, 32)
+            except NotInFragment as e:
+                rep.undecided_item(f"C03-R9 {typ} {'+'.join(hist)}: {e}")
+                continue
+            for out in outs:
+                key = f"{typ}|{'+'.join(hist)}"
+                if out.kind != "return":
+                    rep.undecided_item(f"C03-R9 {key}: raises {out.value!r}")
+                    continue
+                got_e, want_e, got_q, want_q = out.value
+                if not (isinstance(got_e, R) and got_e.same(want_e)):
+                    rep.violation(rid, f"entry|{key}", f"average entry price after {' ; '.join(hist)} ({typ}) is {got_e!r}, the average-cost account has {want_e!r}")
+                if not (isinstance(got_q, R) and got_q.same(want_q)):
+                    rep.violation(rid, f"size|{key}", f"position size after {' ; '.join(hist)} ({typ}) is {got_q!r}, expected {want_q!r}")
+                rep.instance(rid, key, {"entry": repr(got_e)})
+    rep.floor(rid, 6)
+
+
 def run(repo: Repo, rep, tier: str):
+    rep.guarded(check_entry_histories, repo, rep)
     from vlib import memo
     rep.guarded(memo.check, repo, rep, "C03-R8", [(FUT, "FuturesExchange"), (POSITION, "Position")], "futures ledger and position")
     rep.exhaustive = True
